@@ -17,9 +17,13 @@ use serde::{Deserialize, Serialize};
 #[derive(Clone, Debug, PartialEq, Eq, Hash, Serialize, Deserialize)]
 pub enum ShuffleCase {
     /// determinism and content independence for one generator state
-    Det { n: usize, market: bool, seed: u64, layout_a: Vec<u8>, layout_b: Vec<u8> },
+    Det { n: usize, market: bool, seed: u64, layout_a: Vec<u8>, layout_b: Vec<u8>, #[serde(default = "yes")] trading: bool },
     /// uniformity campaign: `steps` seeded steps of batch size `n`
-    Uniform { n: usize, market: bool, stream: bool, steps: u64, seed: u64, alpha_exp: u32, cases_in_run: u32 },
+    Uniform { n: usize, market: bool, stream: bool, steps: u64, seed: u64, alpha_exp: u32, cases_in_run: u32, #[serde(default = "yes")] trading: bool },
+}
+
+fn yes() -> bool {
+    true
 }
 
 const MID: u32 = 1000;
@@ -35,7 +39,7 @@ fn splitmix(x: &mut u64) -> u64 {
 /// One measured step on a fresh environment. `layout[i]` = kind of the i-th submitted instruction
 /// (0 new ask, 1 new bid below the quote, 2 cancel of a resting order, 3 crossing re-price).
 /// Returns the processed position of every submitted instruction.
-fn measured_step(n: usize, market: bool, layout: &[u8], rng: &mut Xoroshiro128StarStar) -> Result<Vec<usize>, String> {
+fn measured_step(n: usize, market: bool, trading: bool, layout: &[u8], rng: &mut Xoroshiro128StarStar) -> Result<Vec<usize>, String> {
     let assets = if market { 2 } else { 0 };
     let na = assets.max(1);
     let ticks = [1u32, 1, 1, 1];
@@ -55,6 +59,11 @@ fn measured_step(n: usize, market: bool, layout: &[u8], rng: &mut Xoroshiro128St
     }
     // spread the warm-up over several steps so that it fits the step size
     env.step(&mut warm);
+    if !trading {
+        // no-trading period: new orders and cancels still reveal their positions; a crossing
+        // re-price would not trade, so it is replaced by a cancel (layout kind 3 -> 2)
+        env.disable_trading();
+    }
     let start = env.time();
     let mut readers: Vec<(bool, (usize, usize))> = vec![]; // (by arrival time?, order id)
     let mut p = 0;
@@ -78,7 +87,11 @@ fn measured_step(n: usize, market: bool, layout: &[u8], rng: &mut Xoroshiro128St
             _ => {
                 let id = pool[p];
                 p += 1;
-                env.modify_order(id, Some(MID - 5), None);
+                if trading {
+                    env.modify_order(id, Some(MID - 5), None);
+                } else {
+                    env.cancel_order(id);
+                }
                 readers.push((false, id));
             }
         }
@@ -139,13 +152,13 @@ pub fn outcome(_id: &'static str, c: &ShuffleCase) -> Outcome {
 
 fn run(c: &ShuffleCase) -> (Vec<(&'static str, u64)>, bool, Result<(), Failure>) {
     match c {
-        ShuffleCase::Det { n, market, seed, layout_a, layout_b } => {
+        ShuffleCase::Det { n, market, seed, layout_a, layout_b, trading } => {
             let n = *n;
             let la: Vec<u8> = layout_a.iter().cloned().chain(std::iter::repeat(0)).take(n).collect();
             let lb: Vec<u8> = layout_b.iter().cloned().chain(std::iter::repeat(1)).take(n).collect();
             let go = |l: &[u8]| {
                 let mut r = Xoroshiro128StarStar::seed_from_u64(*seed);
-                measured_step(n, *market, l, &mut r)
+                measured_step(n, *market, *trading, l, &mut r)
             };
             let kinds = {
                 let mut k = la.clone();
@@ -166,14 +179,14 @@ fn run(c: &ShuffleCase) -> (Vec<(&'static str, u64)>, bool, Result<(), Failure>)
             }
             (classes, kinds >= 2 && n >= 2, Ok(()))
         }
-        ShuffleCase::Uniform { n, market, stream, steps, seed, alpha_exp, cases_in_run } => {
+        ShuffleCase::Uniform { n, market, stream, steps, seed, alpha_exp, cases_in_run, trading } => {
             let n = *n;
             let small = n <= 6;
             let nf = if small { (1..=n).product::<usize>() } else { 0 };
             let mut perm_counts = vec![0u64; if small { nf } else { 0 }];
             let mut cell = vec![0u64; n * n];
             let mut pair = vec![0u64; n * n];
-            let mut s = *seed ^ ((n as u64) << 32) ^ ((*market as u64) << 48) ^ ((*stream as u64) << 49);
+            let mut s = *seed ^ ((n as u64) << 32) ^ ((*market as u64) << 48) ^ ((*stream as u64) << 49) ^ ((!*trading as u64) << 50);
             let mut stream_rng = Xoroshiro128StarStar::seed_from_u64(splitmix(&mut s));
             let mut mixed_steps = 0u64;
             for _ in 0..*steps {
@@ -183,10 +196,10 @@ fn run(c: &ShuffleCase) -> (Vec<(&'static str, u64)>, bool, Result<(), Failure>)
                 }
                 let step_seed = splitmix(&mut s);
                 let pos = if *stream {
-                    measured_step(n, *market, &layout, &mut stream_rng)
+                    measured_step(n, *market, *trading, &layout, &mut stream_rng)
                 } else {
                     let mut r = Xoroshiro128StarStar::seed_from_u64(step_seed);
-                    measured_step(n, *market, &layout, &mut r)
+                    measured_step(n, *market, *trading, &layout, &mut r)
                 };
                 let pos = match pos {
                     Ok(p) => p,
@@ -257,7 +270,9 @@ pub const SIZES: [usize; 9] = [2, 3, 4, 5, 6, 8, 16, 32, 64];
 pub fn parts(tier: Tier) -> (Vec<Part<Case>>, String) {
     let steps: u64 = crate::engine::scaled(tier.pick(400_000, 6_000_000));
     let seed = crate::engine::verif_seed();
-    let total = (SIZES.len() * 4) as u64;
+    const OFF_SIZES: [usize; 3] = [3, 8, 32];
+    let n_on = SIZES.len() * 4;
+    let total = (n_on + OFF_SIZES.len() * 2) as u64;
     let uniform = Part {
         name: "uniformity-campaigns".to_string(),
         kind: PartKind::Exhaustive {
@@ -265,12 +280,17 @@ pub fn parts(tier: Tier) -> (Vec<Part<Case>>, String) {
             // largest batches first so that the long campaigns start early
             decode: Box::new(move |i| {
                 let k = i as usize;
-                let n = SIZES[SIZES.len() - 1 - k / 4];
-                let market = k % 2 == 1;
-                let stream = (k / 2) % 2 == 1;
-                Some(Case::Shuffle(ShuffleCase::Uniform { n, market, stream, steps, seed, alpha_exp: 9, cases_in_run: total as u32 }))
+                if k < n_on {
+                    let n = SIZES[SIZES.len() - 1 - k / 4];
+                    let market = k % 2 == 1;
+                    let stream = (k / 2) % 2 == 1;
+                    Some(Case::Shuffle(ShuffleCase::Uniform { n, market, stream, steps, seed, alpha_exp: 9, cases_in_run: total as u32, trading: true }))
+                } else {
+                    let j = k - n_on;
+                    Some(Case::Shuffle(ShuffleCase::Uniform { n: OFF_SIZES[j / 2], market: j % 2 == 1, stream: false, steps, seed, alpha_exp: 9, cases_in_run: total as u32, trading: false }))
+                }
             }),
-            description: format!("one campaign of {} seeded steps for each batch size in {:?} x environment in {{Env, MarketEnv<2>}} x generator in {{freshly seeded per step, one continuing stream}}", steps, SIZES),
+            description: format!("one campaign of {} seeded steps for each batch size in {:?} x environment in {{Env, MarketEnv<2>}} x generator in {{freshly seeded per step, one continuing stream}} with trading enabled, plus batch sizes {:?} x both environments during a no-trading period", steps, SIZES, OFF_SIZES),
         },
     };
     let det = Part {
@@ -278,7 +298,7 @@ pub fn parts(tier: Tier) -> (Vec<Part<Case>>, String) {
         kind: PartKind::Random {
             make: Box::new(|| {
                 (prop_oneof![4 => 2usize..=8, 1 => Just(16usize), 1 => Just(32usize), 1 => Just(64usize)], any::<bool>(), any::<u64>())
-                    .prop_flat_map(|(n, market, seed)| (proptest::collection::vec(0u8..4, n), proptest::collection::vec(0u8..4, n)).prop_map(move |(layout_a, layout_b)| Case::Shuffle(ShuffleCase::Det { n, market, seed, layout_a, layout_b })))
+                    .prop_flat_map(|(n, market, seed)| (proptest::collection::vec(0u8..4, n), proptest::collection::vec(0u8..4, n), 0u8..5).prop_map(move |(layout_a, layout_b, t)| Case::Shuffle(ShuffleCase::Det { n, market, seed, layout_a, layout_b, trading: t != 0 })))
                     .boxed()
             }),
             cases: tier.pick(40_000, 600_000),
